@@ -237,7 +237,7 @@ def parse_solver_output(out, n, with_values):
         l = lines[i].strip()
         if l in ("sat", "unsat", "unknown", "timeout"):
             model = None
-            if l == "sat" and with_values and len(toks) >= 1:
+            if l == "sat" and with_values:
                 # read the balanced get-value s-expression that follows
                 j = i + 1
                 buf = ""
